@@ -74,5 +74,14 @@ PROPS = {
    explanation="on_ready monitor (pre_send first; cancel => nothing; else one kiq with the schedule's name/broker/labels+schedule_id/args/kwargs, then post_send; sync and async callbacks); "
                "LabelScheduleSource.get_schedules = exact ordered listing (soundness, no duplicates, completeness via ghost inverse map, copied fields); post_send removes the first entry with the fired time and nothing else.",
    assumptions=["dict/list views; Python == on times is an equivalence (py_eq)", "AsyncKicker chain contract (u_kicker)"], not_decided=[]),
+ 'C17': dict(units=['u_pm'], design_ref='DESIGN.md 4 C17, A.7',
+   explanation="Loop invariants on the real ProcessManager.start (outer iteration: sleep -> drain loop cut -> end-of-tick scan; one arbitrary drain iteration with both handle() bodies inlined), FIFO queue view: "
+               "slot count constant, every started un-joined process is its slot's current process (terminate <= join <= start in handle), every worker found dead by a scan is replaced when the next drain ends normally (two ticks), prepare_workers post.",
+   assumptions=["multiprocessing/os model of specs/u_pm.py TRUSTED", "signal handlers only append Shutdown/ReloadAll actions between statements"],
+   not_decided=["that a started process really runs (OS); termination of the drain loop under an endless stream of signals; 'two ticks' measured in seconds"]),
+ 'C18': dict(units=['u_pm'], design_ref='DESIGN.md 4 C18, A.7',
+   explanation="Budget ghost counted by the queue contract (dequeued non-reload-all ReloadOne while max_fails >= 1): restarts == ghost and < max_fails while running, return -1 exactly when reached; ReloadAll appends ReloadOne(i, True) in order, "
+               "each slot restarted at most once per tick; Shutdown: every worker alive when examined signalled exactly once, nobody twice, os.kill only on own un-reaped workers, nothing started, returns None; signal wiring.",
+   assumptions=["multiprocessing/os model of specs/u_pm.py TRUSTED (os.kill requires an un-reaped own child)"], not_decided=[]),
 }
 NOT_APPLICABLE = {}
